@@ -21,7 +21,15 @@ type Conn struct {
 
 var waitContext = context.Background()
 
+// maxChunkSize is the largest amount of data transferred by a single limited read or write.
+// WaitN fails (and does not wait) for values above the burst size, which is never smaller than this,
+// and what is transferred ahead of the wait stays small.
+const maxChunkSize = 64 * 1024
+
 func (c *Conn) Read(b []byte) (n int, err error) {
+	if c.rxLimiter != nil && len(b) > maxChunkSize {
+		b = b[:maxChunkSize]
+	}
 	n, err = c.Conn.Read(b)
 	if n > 0 && c.rxLimiter != nil {
 		c.rxLimiter.WaitN(waitContext, n)
@@ -30,9 +38,23 @@ func (c *Conn) Read(b []byte) (n int, err error) {
 }
 
 func (c *Conn) Write(b []byte) (n int, err error) {
-	n, err = c.Conn.Write(b)
-	if n > 0 && c.txLimiter != nil {
-		c.txLimiter.WaitN(waitContext, n)
+	if c.txLimiter == nil {
+		return c.Conn.Write(b)
 	}
-	return
+	for {
+		chunk := b
+		if len(chunk) > maxChunkSize {
+			chunk = chunk[:maxChunkSize]
+		}
+		var k int
+		k, err = c.Conn.Write(chunk)
+		n += k
+		if k > 0 {
+			c.txLimiter.WaitN(waitContext, k)
+		}
+		b = b[k:]
+		if err != nil || len(b) == 0 {
+			return
+		}
+	}
 }
